@@ -344,3 +344,12 @@ package bigslice
 //@   loop 2 invariant c.heap != nil && c.err == nil && n >= 0
 //@   loop 3 invariant c.heap != nil && c.err == nil && n >= 0 && implies(last < 0, len(c.heap.Buffers) > 0)
 //@   loop 3 step heap-order-restored-after-every-advance: hfixes == at_head(hfixes) + 1
+
+// ---- C05: the Repartition partitioner keeps no state between (possibly concurrent) calls ----
+
+// The closure handed to the executor as a task's partitioner writes only the shards vector it is given (and memory
+// it allocates itself): tasks of one process that run it concurrently cannot disturb each other.
+//@ func bigslice.Repartition$1 (ctx, frame, nshard, shards)
+//@   may_panic
+//@   flag abstract_calls frame.Frame.Index
+//@   modifies shards[:], ColMem, userCalls, lastCallRvs
